@@ -7,6 +7,7 @@ import (
 )
 
 func nondetDec(label string) Dec {
+	zz.NoMerge()
 	var d Dec
 	zz.NondetInto(label, &d.dec)
 	return d
